@@ -106,7 +106,8 @@ async fn run_item<TC: ModelCfg>(rep: &Report, alphabet: &[Batch], it: &Item) {
     // a follow-up batch different from the failed one (a value never used before), preferably on a
     // label the failed batch does not touch
     let al = crate::common::alphabet::<TC>();
-    let alt_label = al.labels.iter().find(|l| !next.iter().any(|(nl, _)| nl == *l)).unwrap_or(&al.labels[0]).clone();
+    let pool: Vec<Vec<u8>> = alphabet.iter().flat_map(|b| b.iter().map(|(l, _)| l.clone())).chain(al.labels.iter().cloned()).collect();
+    let alt_label = pool.iter().find(|l| !next.iter().any(|(nl, _)| nl == *l)).unwrap_or(&al.labels[0]).clone();
     let alt: Batch = vec![(alt_label, b"z".to_vec())];
     let mut model_alt = model.clone();
     let expect_alt = model_alt.publish(&alt);
@@ -204,9 +205,17 @@ async fn run_item<TC: ModelCfg>(rep: &Report, alphabet: &[Batch], it: &Item) {
 }
 
 fn run_cfg<TC: ModelCfg>(args: &Args, rep: &Report) {
-    let alphabet = base_alphabet::<TC>();
     let quick = args.quick();
-    let depth = if quick { 1 } else { 2 };
+    run_alpha::<TC>(args, rep, base_alphabet::<TC>(), if quick { 1 } else { 2 }, false);
+    // tree-shape alphabets (decompression with an insertion below the pushed-down node): depth-1 prefixes;
+    // quick: one orientation, two-label prefixes only
+    for orient in 0..(if quick { 1 } else { 2 }) {
+        run_alpha::<TC>(args, rep, shape_batches::<TC>(orient), 1, quick);
+    }
+}
+
+fn run_alpha<TC: ModelCfg>(args: &Args, rep: &Report, alphabet: Vec<Batch>, depth: usize, pairs_only: bool) {
+    let quick = args.quick();
     let mut prefixes: Vec<Vec<usize>> = vec![vec![]];
     let mut frontier: Vec<Vec<usize>> = vec![vec![]];
     for _ in 0..depth {
@@ -214,7 +223,7 @@ fn run_cfg<TC: ModelCfg>(args: &Args, rep: &Report) {
         for p in &frontier {
             for (i, b) in alphabet.iter().enumerate() {
                 // prefixes: value x only (shape classes), non-empty
-                if b.is_empty() || b.iter().any(|(_, v)| v == b"y") {
+                if b.is_empty() || b.iter().any(|(_, v)| v == b"y") || (pairs_only && b.len() != 2) {
                     continue;
                 }
                 // depth-2 prefixes must extend the label set or nothing changes
@@ -375,7 +384,7 @@ pub fn run(args: &Args) -> i32 {
         parallel_faults::<E>(args, &rep);
     }
     rep.finish(
-        "one evaluation = one publish with exactly one storage call (index k of the fault-free run, every k) failing, for prefix histories over the x-valued batches (depth 1 quick / 2 thorough) x every next batch of the 27-batch alphabet x manager {no cache, default cache, cache warmed by lookups+audit}; thorough adds a second failing publish before the successful one. Oracle: Err returned; same and fresh instance serve the previous state (reader suite vs DirModel), no open transaction; retry reaches the fault-free state. distinct = distinct (configuration, variant, prefix, batch, number of storage calls)",
+        "one evaluation = one publish with exactly one storage call (index k of the fault-free run, every k) failing, for prefix histories over the x-valued batches (depth 1 quick / 2 thorough) x every next batch of the 27-batch alphabet, and depth-1 prefixes over the tree-shape alphabets x every shape batch, x manager {no cache, default cache, cache warmed by lookups+audit}; thorough adds a second failing publish before the successful one. Oracle: Err returned; same and fresh instance serve the previous state (reader suite vs DirModel), no open transaction; retry reaches the fault-free state. distinct = distinct (configuration, variant, prefix, batch, number of storage calls)",
         &["a failing storage call fails as a whole (no partial effect)", "sequential insertion here; parallel insertion with detached tasks is explored by the scheduler-based part", "blake3 collision resistance"],
     )
 }
